@@ -177,6 +177,9 @@ func (w *c08World) bind(op *c08Op, made []*schema.StreamReader[int], created []i
 			return nil
 		}
 		if op.K == "merge" {
+			if len(op.Rs) < 2 {
+				return nil
+			}
 			for _, r := range op.Rs {
 				delete(w.readers, r)
 			}
@@ -205,9 +208,21 @@ func (w *c08World) bind(op *c08Op, made []*schema.StreamReader[int], created []i
 var c08AskTime, c08ExecTime time.Duration
 
 func c08Ask(ctx *vh.Ctx, ops []c08Op) (*c08Reply, error) {
+	b, err := json.Marshal(ops)
+	if err != nil {
+		return nil, err
+	}
+	return c08AskRaw(ctx, b)
+}
+
+// c08AskRaw: opsJSON is the JSON array of the ops (kept incrementally by the sequential runner so
+// that a trace of n ops is not re-marshalled n times).
+func c08AskRaw(ctx *vh.Ctx, opsJSON []byte) (*c08Reply, error) {
 	t0 := time.Now()
 	defer func() { c08AskTime += time.Since(t0) }()
-	raw, err := ctx.Oracle.Ask("C08", map[string]any{"ops": ops})
+	req := make([]byte, 0, len(opsJSON)+10)
+	req = append(append(append(req, `{"ops":`...), opsJSON...), '}')
+	raw, err := ctx.Oracle.Ask("C08", json.RawMessage(req))
 	if err != nil {
 		return nil, err
 	}
@@ -253,6 +268,7 @@ type c08Seq struct {
 	seq   map[int]int // per pipe: items sent so far
 	stats map[string]int
 	bad   bool
+	enc   []byte // JSON of c.Ops without the closing bracket
 }
 
 // step executes op on the implementation, appends it (with the observation) to the trace and
@@ -280,7 +296,17 @@ func (s *c08Seq) step(op c08Op) (bool, error) {
 		s.bad = true
 		return false, nil
 	}
-	rep, err := c08Ask(s.ctx, s.c.Ops)
+	ob, err := json.Marshal(op)
+	if err != nil {
+		return false, err
+	}
+	if len(s.enc) == 0 {
+		s.enc = append(s.enc, '[')
+	} else {
+		s.enc = append(s.enc, ',')
+	}
+	s.enc = append(s.enc, ob...)
+	rep, err := c08AskRaw(s.ctx, append(append([]byte{}, s.enc...), ']'))
 	if err != nil {
 		return false, err
 	}
@@ -387,6 +413,9 @@ func (s *c08Seq) genConstructor() (c08Op, bool) {
 		k := r.Range(2, len(rs))
 		if k > 8 {
 			k = 8
+		}
+		if r.Chance(4) {
+			k = 1 // MergeStreamReaders of one reader returns that reader
 		}
 		perm := r.Perm(len(rs))
 		var ids []int
